@@ -84,6 +84,20 @@ def build_corpus(base: Path):
             p.parent.mkdir(parents=True, exist_ok=True)
             p.write_text(text)
             items.append((str(p), rel, False))
+    # encodings: files that are not valid UTF-8 next to UTF-8 files with non-ASCII identifiers / last lines
+    same_rels_extra = True
+    enc = {
+        "enc/latin1.py": "# caf\xe9\ndef f(a):\n    return 'na\xefve'\n".encode("latin-1"),
+        "enc/latin1.js": "// \xe9t\xe9\nfunction g(a) {\n  return '\xfc';\n}\n".encode("latin-1"),
+        "enc/utf8_names.py": "def gr\u00f6\u00dfe(a):\n    return a\n\ndef greet(n):\n    return 'gr\u00fc\u00df dich ' + n\n".encode("utf-8"),
+        "enc/utf8_names.js": "function \u00fcber(a) {\n  return a; }\nfunction tail(a) {\n  return '\u65e5\u672c'; }\n".encode("utf-8"),
+        "enc/utf8_bom.cs": "\ufeffclass A {\n  void M\u00e9thode(int a) {\n    a++;\n  }\n}\n".encode("utf-8"),
+    }
+    for rel, data in enc.items():
+        p = root / rel
+        p.parent.mkdir(parents=True, exist_ok=True)
+        p.write_bytes(data)
+        items.append((str(p), rel, False))
     return items
 
 
@@ -95,6 +109,10 @@ def build_trees(base: Path):
         "proto/message_pb2.py": tree.flat_file("Python", [2]), "lib/x/y/z.c": tree.flat_file("C", [16]), "lib/k.java": tree.flat_file("Java", [5, 6]),
         "zz/last.ts": tree.flat_file("TypeScript", [3]), "aa/first.cs": tree.flat_file("C#", [2]), "same/nested.c": "int f(int a) {\n  return a;\n}\n",
         "same/nested.cpp": "int f(int a) {\n  return a;\n}\n",
+        # several hidden folders side by side (none of them in the built-in exclusions), each holding supported files
+        ".storybook/main.js": tree.flat_file("JavaScript", [4]), ".husky/hook.py": tree.flat_file("Python", [3]), ".a/x.py": tree.flat_file("Python", [2]),
+        ".b/y.c": tree.flat_file("C", [2]), ".c/z.java": tree.flat_file("Java", [2]), "src/.h1/a.py": "x = 1\n", "src/.h2/b.py": tree.flat_file("Python", [5]),
+        "enc/latin1.py": "# caf\xe9\ndef f(a):\n    return a\n".encode("latin-1"), "enc/utf8.py": "def gr\u00f6\u00dfe(a):\n    return 'gr\u00fc\u00df'\n",
     })
     tree.write_files(u, {
         "app/main.py": tree.flat_file("Python", [7]), "generated/skip.py": tree.flat_file("Python", [2]), "x_pb2.py": "x = 1\n", "src/c.js": "function f(",
@@ -193,7 +211,7 @@ def gen(col, seed, n_files, n_trees, max_files):
     fx = fixture()
     rels = [r for _, r, _ in fx.items]
     bad_rels = [r for _, r, m in fx.items if m]
-    same_rels = [r for r in rels if r.startswith("same/")]
+    same_rels = [r for r in rels if r.startswith(("same/", "enc/"))]
 
     @st.composite
     def file_histories(draw):
